@@ -109,7 +109,12 @@ func handleGetUser(params internal.HandlerFuncParams) ([]byte, error) {
 	}
 
 	// username,
-	res := fmt.Sprintf("*12\r\n+username\r\n*1\r\n+%s", user.Username)
+	// User names, categories, command names, key and channel patterns are supplied by clients
+	// (ACL SETUSER): they are sent as bulk strings, which may contain any byte.
+	bulk := func(s string) string {
+		return fmt.Sprintf("\r\n$%d\r\n%s", len(s), s)
+	}
+	res := "*12\r\n+username\r\n*1" + bulk(user.Username)
 
 	// flags
 	var flags []string
@@ -127,7 +132,7 @@ func handleGetUser(params internal.HandlerFuncParams) ([]byte, error) {
 
 	res = res + fmt.Sprintf("\r\n+flags\r\n*%d", len(flags))
 	for _, flag := range flags {
-		res = fmt.Sprintf("%s\r\n+%s", res, flag)
+		res = res + bulk(flag)
 	}
 
 	// categories
@@ -137,14 +142,14 @@ func handleGetUser(params internal.HandlerFuncParams) ([]byte, error) {
 			res = res + fmt.Sprintf("\r\n++@all")
 			continue
 		}
-		res = res + fmt.Sprintf("\r\n++@%s", category)
+		res = res + bulk("+@"+category)
 	}
 	for _, category := range user.ExcludedCategories {
 		if category == "*" {
 			res = res + fmt.Sprintf("\r\n+-@all")
 			continue
 		}
-		res = res + fmt.Sprintf("\r\n+-@%s", category)
+		res = res + bulk("-@"+category)
 	}
 
 	// commands
@@ -154,14 +159,14 @@ func handleGetUser(params internal.HandlerFuncParams) ([]byte, error) {
 			res = res + fmt.Sprintf("\r\n++all")
 			continue
 		}
-		res = res + fmt.Sprintf("\r\n++%s", command)
+		res = res + bulk("+"+command)
 	}
 	for _, command := range user.ExcludedCommands {
 		if command == "*" {
 			res = res + fmt.Sprintf("\r\n+-all")
 			continue
 		}
-		res = res + fmt.Sprintf("\r\n+-%s", command)
+		res = res + bulk("-"+command)
 	}
 
 	// keys
@@ -176,13 +181,13 @@ func handleGetUser(params internal.HandlerFuncParams) ([]byte, error) {
 		switch {
 		case slices.Contains(user.IncludedWriteKeys, key) && slices.Contains(user.IncludedReadKeys, key):
 			// Key is RW
-			res = res + fmt.Sprintf("\r\n+%s~%s", "%RW", key)
+			res = res + bulk("%RW~"+key)
 		case slices.Contains(user.IncludedWriteKeys, key):
 			// Keys is W-Only
-			res = res + fmt.Sprintf("\r\n+%s~%s", "%W", key)
+			res = res + bulk("%W~"+key)
 		case slices.Contains(user.IncludedReadKeys, key):
 			// Key is R-Only
-			res = res + fmt.Sprintf("\r\n+%s~%s", "%R", key)
+			res = res + bulk("%R~"+key)
 		}
 	}
 
@@ -190,10 +195,10 @@ func handleGetUser(params internal.HandlerFuncParams) ([]byte, error) {
 	res = res + fmt.Sprintf("\r\n+channels\r\n*%d",
 		len(user.IncludedPubSubChannels)+len(user.ExcludedPubSubChannels))
 	for _, channel := range user.IncludedPubSubChannels {
-		res = res + fmt.Sprintf("\r\n++&%s", channel)
+		res = res + bulk("+&"+channel)
 	}
 	for _, channel := range user.ExcludedPubSubChannels {
-		res = res + fmt.Sprintf("\r\n+-&%s", channel)
+		res = res + bulk("-&"+channel)
 	}
 
 	res += "\r\n"
